@@ -7,6 +7,8 @@ fn tree(e: &Expr) -> Value {
         ExprKind::Literal(Literal::Integer(n)) => json!(n),
         ExprKind::Unary(op, inner) => json!({"unary": format!("{op:?}"), "of": tree(inner)}),
         ExprKind::IsNull { expr, negated } => json!({"postfix": if *negated { "IS NOT NULL" } else { "IS NULL" }, "of": tree(expr)}),
+        ExprKind::Between { high, negated, .. } => json!({"special": "Between", "negated": negated, "last": tree(high)}),
+        ExprKind::Like { pattern, negated, .. } => json!({"special": "Like", "negated": negated, "last": tree(pattern)}),
         other => json!(format!("{other:?}").chars().take(40).collect::<String>()),
     }
 }
